@@ -142,7 +142,7 @@ def simple_pe(rng, bits=None, nsec=None, small=True):
         else:
             vs = 0
         data = rand_bytes(rng, rs)
-        s = Section(name=rng.choice([b".text", b".rdata", b".data", b".rsrc", b".reloc", b"12345678", b"", b"a\0b"]),
+        s = Section(name=rng.choice([b".text", b".rdata", b".data", b".rsrc", b".reloc", b"12345678", b"", b"a\0b", b"UPX\x001", b"\0\0\0\0tail", b"\xfe\xff", b"caf\xc3\xa9", b"1234567\xc3"]),
                     va=va, vs=vs, prd=prd if rs else rng.choice([0, prd]), rs=rs, data=data)
         pe.sections.append(s)
         prd += rs
